@@ -27,7 +27,8 @@ TRUSTED = [
 RULE = ("farmer kind in {Runner, Harvester, Sampler} x runner descriptions (1-3 variables, array outputs with an internal "
         "dimension given by var_coords or by a constant, resources, attrs) x grids / case sets x batch sizes x shuffle x "
         "to_df x overwrite policy x reload of the crop by name (same process; fresh OS process for a sample) between "
-        "sow, grow and reap; distinct = distinct combinations; non-trivial = at least two batches")
+        "sow, grow and reap; plus Harvester crops whose harvester already holds identical / conflicting / overlapping data, "
+        "overwrite given or left at its default on both routes; distinct = distinct combinations; non-trivial = at least two batches")
 
 RELOAD_SNIPPET = r'''
 import sys, os, json
@@ -204,6 +205,79 @@ def one_case(c, tmp, idx):
     return rep, bad
 
 
+def shifted_fn(ranks, kind, mode, **kw):
+    """The same labelled function with every output moved by one (data that conflicts with labelled_fn's)."""
+    out = c03.labelled_fn(ranks, kind, mode, **kw)
+    return tuple(o + 1 for o in out) if isinstance(out, tuple) else out + 1
+
+
+def harvester_prior_case(c, tmp, idx):
+    """A Harvester that already holds data (identical to, or conflicting with, what the crop will deliver): the
+    crop route crop.reap(...) and the direct route harvest_combos(...) must agree -- both raise or neither, the
+    files end up equal -- with the overwrite policy given explicitly or LEFT AT ITS DEFAULT on both sides."""
+    import xyzpy
+    rng = c.rng
+    sw = R.Sweep(rng, with_cases=False, max_args=3, max_vals=3, kind=0, allow_consts=False)
+    nv = rng.randint(1, 2)
+    kind = 10 + nv
+    names = [f"v{j}" for j in range(nv)]
+    fn_args = tuple(sw.combo_args)
+    prior = rng.choice(["same", "conflict", "conflict", "disjoint-or-overlap"])
+    pol_given = rng.choice(["default", "default", None, True, False])
+    d = os.path.join(tmp, f"h{idx}")
+    os.makedirs(d)
+
+    def mk_runner(f):
+        return xyzpy.Runner(functools.partial(f, sw.rank, kind, "plain"), tuple(names), fn_args=fn_args)
+    sub = {a: sorted(rng.sample(list(v), rng.randint(1, len(v))), key=list(v).index) for a, v in sw.combos}
+    prior_fn = c03.labelled_fn if prior == "same" else shifted_fn
+    rep = {"stream": "harvester-with-prior-data", "sweep": sw.describe(), "n_vars": nv, "prior": prior,
+           "prior_subgrid": {a: [str(x) for x in v] for a, v in sub.items()}, "overwrite": str(pol_given)}
+    bad = []
+    sides = {k: os.path.join(d, k) for k in ("crop_side", "direct_side")}
+    for side in sides.values():
+        xyzpy.Harvester(mk_runner(prior_fn), data_name=side).harvest_combos(dict(sub), verbosity=0)
+    before = xyzpy.load_ds(sides["crop_side"])
+    kw = {} if pol_given == "default" else {"overwrite": pol_given}
+    # crop route
+    h = xyzpy.Harvester(mk_runner(c03.labelled_fn), data_name=sides["crop_side"])
+    crop = h.Crop(name="hc", parent_dir=d, batchsize=rng.randint(1, max(1, sw.n_settings())))
+    crop.sow_combos(dict(sw.combos), verbosity=0)
+    crop.grow_missing(verbosity=0)
+    rep["batches"] = crop.num_batches
+    crop_err = None
+    try:
+        crop.reap(**kw)
+    except Exception as e:  # noqa
+        crop_err = type(e).__name__
+    # direct route
+    other = xyzpy.Harvester(mk_runner(c03.labelled_fn), data_name=sides["direct_side"])
+    direct_err = None
+    try:
+        other.harvest_combos(dict(sw.combos), verbosity=0, **kw)
+    except Exception as e:  # noqa
+        direct_err = type(e).__name__
+    rep["crop_raised"], rep["direct_raised"] = crop_err, direct_err
+    a, b = xyzpy.load_ds(sides["crop_side"]), xyzpy.load_ds(sides["direct_side"])
+    if (crop_err is None) != (direct_err is None):
+        bad.append(("harvester-crop-and-direct-disagree-on-conflict",
+                    f"with existing data the crop route {'raised ' + crop_err if crop_err else 'raised nothing'} "
+                    f"while the direct harvest {'raised ' + direct_err if direct_err else 'raised nothing'}"))
+    ok, why = ds_equal(b, a)
+    if not ok:
+        bad.append(("harvester-disk-differs", "with existing data: " + why))
+    if crop_err is not None:
+        ok, why = ds_equal(before, a)
+        if not ok:
+            bad.append(("refused-harvest-changed-disk", why))
+        if not os.path.exists(os.path.join(d, ".xyz-hc")):
+            bad.append(("crop-deleted-after-failed-harvest", "the reap raised but the crop directory is gone"))
+    elif os.path.exists(os.path.join(d, ".xyz-hc")):
+        bad.append(("crop-not-cleaned-up", "complete harvest reap left the crop directory"))
+    shutil.rmtree(d, ignore_errors=True)
+    return rep, bad
+
+
 def run(tier, seed):
     c = core.Check("C06", tier, seed)
     gen_st = core.regen()
@@ -228,6 +302,14 @@ def run(tier, seed):
             for key, msg in bad:
                 c.violation(key, msg, rep)
             shutil.rmtree(os.path.join(tmp, f"f{i}"), ignore_errors=True)
+        for i in range(30 if tier == "quick" and not c.broken else 200):
+            rep, bad = harvester_prior_case(c, tmp, i)
+            c.case(json.dumps(rep, sort_keys=True, default=str), nontrivial=rep.get("batches", 0) >= 2,
+                   sample=rep if i % 10 == 0 else None)
+            c.count("farmer", "Harvester/prior-data"); c.count("prior", rep["prior"]); c.count("overwrite", rep["overwrite"])
+            c.count("prior_outcome", "raised" if rep["direct_raised"] else "merged")
+            for key, msg in bad:
+                c.violation(key, msg, rep)
     finally:
         R.shutdown_loky()
         shutil.rmtree(tmp, ignore_errors=True)
